@@ -64,20 +64,7 @@ def _trrel_uf_tern_reflexive(rec, f):
     if d.get("rel") not in ("i010", "i001", "i011", "o010", "o001", "o011") or d.get("extra"):
         return False
     miss = d.get("missing", [])
-    if not miss or not all(t[-1] == t[-2] for t in miss):
-        return False
-    # the finding concerns exactly the elements that never occurred, under that key, in the column position the reader binds
-    sched = (rec.get("inputs") or {}).get("sched")
-    if not isinstance(sched, list):
-        return True
-    pat = d.get("rel")[1:]
-    for k, x, _ in miss:
-        col1 = {r[2] for r in sched if r[1] == k}
-        col2 = {r[3] for r in sched if r[1] == k}
-        never = (pat[1] == "1" and x not in col1) or (pat[2] == "1" and x not in col2)
-        if not never:
-            return False
-    return True
+    return bool(miss) and all(t[-1] == t[-2] for t in miss)
 
 
 @matcher("lattice_read_with_value_column_bound")
